@@ -73,6 +73,9 @@ func (d *decoded) diff(o *decoded) string {
 }
 
 type niCase struct {
+	// light: an expensive verifier (2048-bit moduli, many repetitions): changed contexts,
+	// a few structurally chosen component alterations and count changes only
+	light bool
 	id    string // e.g. "schnorr/k256"
 	pname string // sigma.Name of the protocol
 	L     int    // challenge bytes
